@@ -59,6 +59,8 @@ structure St where
   fixF1 : Bool := true
   fixF9 : Bool := true
   fixF4 : Bool := true
+  res : Res.St := {}                               -- C18: the resource ledger machine
+  resLast : Std.HashMap Nat Nat := {}              -- C18: last key accepted by each writer (ordering gate)
   tp : Option Tp.St := none                        -- C13: the threadpool machine being replayed
   fixF5 : Bool := true
   libBounds : List (Nat × Nat × Nat) := []                       -- (algorithm, n, value) of the library's bound functions
@@ -819,12 +821,92 @@ def stepTp (s : St) (line : String) : Option (St × String) :=
     | _, _ => none
   | _ => none
 
+/-! ### C18: API life-cycle histories against the resource ledger machine (MtblModel/Res.lean) -/
+def ledgerStr (l : Res.Ledger) (withHeap : Bool) (warm : Bool) : String :=
+  let sg (x : Int) : String := if x ≥ 0 then "+" ++ toString x else toString x
+  "fds=" ++ sg l.fds ++ " maps=" ++ sg l.maps ++ " tmp=" ++ toString l.tmp ++
+    (if withHeap then (if warm || l.heap == 0 then " heap=+0" else " heap=LEAK") else "")
+
+def parseIds (x : String) : List Nat := if x == "-" then [] else (x.splitOn ",").filterMap (·.toNat?)
+
+def stepRes (s : St) (line : String) : Option (St × String) :=
+  let upd (s : St) (op : Res.Op) (reply : String) : Option (St × String) := some ({ s with res := Res.step s.res op }, reply)
+  match line.trimAscii.toString.splitOn " " with
+  | ["res.begin"] => some ({ s with res := { fixF6 := s.res.fixF6, fixF10 := s.res.fixF10 }, resLast := {} }, "ok")
+  | ["cfg", "fixF6", v] => some ({ s with res := { s.res with fixF6 := v == "1" } }, "ok")
+  | ["cfg", "fixF10", v] => some ({ s with res := { s.res with fixF10 := v == "1" } }, "ok")
+  | ["res.table", t, n, _, _] => match t.toNat?, n.toNat? with
+    | some t, some n => upd s (.table t n) "ok"
+    | _, _ => none
+  | ["res.bad", t] => t.toNat?.bind fun t => upd s (.bad t) "ok"
+  | ["res.setfile", sid, ts] => sid.toNat?.bind fun sid => upd s (.setfile sid (parseIds ts)) "ok"
+  | ["res.pool", i, _] => i.toNat?.bind fun i => upd s (.pool i) "ok"
+  | ["res.writer", i, _] => i.toNat?.bind fun i => upd { s with resLast := s.resLast.erase i } (.writer i false) "ok"
+  | ["res.wadd", i, k, _] => match i.toNat?, k.toNat? with
+    | some i, some k =>
+      match Res.getObj s.res i with
+      | .writer =>
+        let okAdd := match s.resLast[i]? with | some l => decide (l < k) | none => true
+        if okAdd then some ({ s with resLast := s.resLast.insert i k }, "ok") else some (s, "fail")
+      | _ => none
+    | _, _ => none
+  | ["res.reader", i, t] => match i.toNat?, t.toNat? with
+    | some i, some t => upd s (.reader i t) (if Res.fileKind s.res t == some .table then "ok" else "null")
+    | _, _ => none
+  | ["res.merger", i, _, srcs] => i.toNat?.bind fun i => upd s (.merger i (parseIds srcs)) "ok"
+  | "res.sorter" :: i :: args => i.toNat?.bind fun i =>
+      let mem := kvNat args "mem" 1000
+      let mg := (kv args "merge").getD "cat"
+      let fk : Option Nat := if mg.startsWith "fail" then (mg.drop 4).toString.toNat? else none
+      let pooled := (kv args "pool").getD "-" != "-"
+      upd s (.sorter i { limit := if mem < 64 then 64 else mem, eo := kvNat args "eo" 8, failKey := fk, pooled }) "ok"
+  | ["res.sadd", i, k, vl] => match i.toNat?, k.toNat?, vl.toNat? with
+    | some i, some k, some vl =>
+      match Res.getObj s.res i with
+      | .sorter ss => upd s (.sadd i k vl) (if (Res.sorterAdd s.res.fixF6 s.res.fixF10 ss k vl).1 then "ok" else "fail")
+      | _ => none
+    | _, _, _ => none
+  | ["res.siter", i, sid] => match i.toNat?, sid.toNat? with
+    | some i, some sid =>
+      match Res.getObj s.res sid with
+      | .sorter ss => upd s (.siter i sid) (if (Res.sorterIter s.res.fixF6 s.res.fixF10 ss).1 then "ok" else "null")
+      | _ => none
+    | _, _ => none
+  | ["res.swrite", sid, w] => match sid.toNat?, w.toNat? with
+    | some sid, some w =>
+      match Res.getObj s.res sid with
+      | .sorter ss =>
+        if ss.iterating then some (s, "fail") else
+        let okk := (Res.sorterIter s.res.fixF6 s.res.fixF10 ss).1
+        upd { s with resLast := s.resLast.insert w 99999 } (.swrite sid) (if okk then "ok" else "fail")
+      | _ => none
+    | _, _ => none
+  | ["res.fileset", i, sid] => match i.toNat?, sid.toNat? with
+    | some i, some sid => upd s (.fileset i sid) "ok"
+    | _, _ => none
+  | ["res.fsdup", i, o] => match i.toNat?, o.toNat? with
+    | some i, some o => upd s (.fsdup i o) "ok"
+    | _, _ => none
+  | ["res.fsreload", i] => i.toNat?.bind fun i => upd s (.fsreload i) "ok"
+  | "res.iter" :: i :: src :: _ => match i.toNat?, src.toNat? with
+    | some i, some src => upd s (.iter i src) "ok"
+    | _, _ => none
+  | ["res.next", i, _] => i.toNat?.bind fun i => upd s (.use i) "ok"
+  | ["res.seek", i, _] => i.toNat?.bind fun i => upd s (.use i) "ok"
+  | ["res.destroy", i] => i.toNat?.bind fun i => upd s (.destroy i) "ok"
+  | ["res.count"] => some (s, ledgerStr s.res.ledger false false)
+  | ["res.end"] => some (s, ledgerStr s.res.ledger true false)
+  | ["res.end", "warm"] => some (s, ledgerStr s.res.ledger true true)
+  | _ => none
+
 def step (s : St) (line : String) : St × String :=
   match stepCz s line with
   | some r => r
   | none => match stepTp s line with
     | some r => r
-    | none => stepMain s line
+    | none => match stepRes s line with
+      | some r => r
+      | none => stepMain s line
 
 partial def loop (h : IO.FS.Stream) (out : IO.FS.Stream) (s : St) : IO Unit := do
   let line ← h.getLine
